@@ -98,29 +98,38 @@ func (h *hist) deliver() {
 				return
 			}
 		}
-		s := sut.SnapMsg(ms[len(ms)-1], true)
-		from := fmtStoreAddr(s.From)
-		var to []string
-		for _, t := range s.To {
-			to = append(to, fmtStoreAddr(t))
-		}
-		switch {
-		case !h.m.FreshID(n, s.ID):
-			h.violation("C14:delivery:id-reused", fmt.Sprintf("mailbox %q: new message got id %q which was used before", n, s.ID))
-			return
-		case s.Mailbox != n || from != msg.expFrom || strings.Join(to, "|") != strings.Join(msg.expTo, "|") || s.Subject != msg.subject || s.Seen:
-			h.violation("C14:delivery:metadata", fmt.Sprintf("mailbox %q new message %+v, expected from %q to %q subject %q unseen",
-				n, map[string]any{"mailbox": s.Mailbox, "from": from, "to": to, "subject": s.Subject, "seen": s.Seen}, msg.expFrom, msg.expTo, msg.subject))
-			return
-		case s.SrcErr != "" || s.Size != int64(len(s.Source)) || !strings.HasSuffix(normEOL(s.Source), normEOL(string(msg.raw))):
-			h.violation("C14:delivery:content", fmt.Sprintf("mailbox %q new message %s: size %d, source %d bytes (%s), does not end with the transmitted message",
-				n, s.ID, s.Size, len(s.Source), s.SrcErr))
+		if !h.learnNew(n, sut.SnapMsg(ms[len(ms)-1], true), msg) {
 			return
 		}
-		h.m.Add(&model.Msg{ID: s.ID, Mailbox: n, From: msg.expFrom, To: msg.expTo, Subject: msg.subject, Date: s.Date,
-			Size: s.Size, Source: s.Source})
-		h.extras[n+"\x00"+s.ID] = &extra{text: msg.text, rawFrom: msg.rawFrom}
 	}
+}
+
+// learnNew checks everything the harness knows independently about a freshly stored copy of msg
+// in mailbox n (s is what the store reports) and adds it to the model with the
+// implementation-chosen id, date, size and source.
+func (h *hist) learnNew(n string, s sut.MsgSnap, msg gmsg) bool {
+	from := fmtStoreAddr(s.From)
+	var to []string
+	for _, t := range s.To {
+		to = append(to, fmtStoreAddr(t))
+	}
+	switch {
+	case !h.m.FreshID(n, s.ID):
+		h.violation("C14:delivery:id-reused", fmt.Sprintf("mailbox %q: new message got id %q which was used before", n, s.ID))
+		return false
+	case s.Mailbox != n || from != msg.expFrom || strings.Join(to, "|") != strings.Join(msg.expTo, "|") || s.Subject != msg.subject || s.Seen:
+		h.violation("C14:delivery:metadata", fmt.Sprintf("mailbox %q new message %+v, expected from %q to %q subject %q unseen",
+			n, map[string]any{"mailbox": s.Mailbox, "from": from, "to": to, "subject": s.Subject, "seen": s.Seen}, msg.expFrom, msg.expTo, msg.subject))
+		return false
+	case s.SrcErr != "" || s.Size != int64(len(s.Source)) || !strings.HasSuffix(normEOL(s.Source), normEOL(string(msg.raw))):
+		h.violation("C14:delivery:content", fmt.Sprintf("mailbox %q new message %s: size %d, source %d bytes (%s), does not end with the transmitted message",
+			n, s.ID, s.Size, len(s.Source), s.SrcErr))
+		return false
+	}
+	h.m.Add(&model.Msg{ID: s.ID, Mailbox: n, From: msg.expFrom, To: msg.expTo, Subject: msg.subject, Date: s.Date,
+		Size: s.Size, Source: s.Source})
+	h.extras[n+"\x00"+s.ID] = &extra{text: msg.text, rawFrom: msg.rawFrom}
+	return true
 }
 
 func (h *hist) deliverSMTP(sender string, addrs []string, msg gmsg) bool {
